@@ -72,21 +72,35 @@ AddPointMeaning == \A c \in Cells \ shade : \A d \in Dirs : \A q \in U :
 
 \* ---- region tests and rendering ---------------------------------------------------------
 Rects == {r \in (0..K) \X (0..K) \X (0..K) \X (0..K) : r[1] <= r[3] /\ r[2] <= r[4]}     \* <<left, lower, right, upper>>
-RectShaded(r) == \A x \in r[1]..r[3] : \A y \in r[2]..r[4] : <<x, y>> \in shade
+RectShadedOf(M, r) == \A x \in r[1]..r[3] : \A y \in r[2]..r[4] : <<x, y>> \in M.R
 \* is_pointfree((l,b),(r,u)): no point strictly inside the region covering cells l..r x b..u
-RectPointFree(r) == ~\E i \in 1..K : r[1] < i /\ i <= r[3] /\ r[2] <= patt[i] /\ patt[i] < r[4]
+RectPointFreeOf(M, r) == ~\E i \in 1..Len(M.p) : r[1] < i /\ i <= r[3] /\ r[2] <= M.p[i] /\ M.p[i] < r[4]
+RectShaded(r) == RectShadedOf(M0, r)
+RectPointFree(r) == RectPointFreeOf(M0, r)
 NonPointless == {c \in Cells : \E i \in 1..K : c[1] \in {i - 1, i} /\ c[2] \in {patt[i], patt[i] + 1}}
 Anchored == << \A y \in 0..K : <<K, y>> \in shade, \A x \in 0..K : <<x, K>> \in shade,
                \A y \in 0..K : <<0, y>> \in shade, \A x \in 0..K : <<x, 0>> \in shade >>     \* right, top, left, bottom
-\* the text rendering as a (2K+1) x (2K+1) matrix of symbols, top row first:
-\* S shaded cell, E empty cell, V / H grid line pieces, P point, X crossing without a point
-Ascii == [row \in 1..(2 * K + 1) |-> [col \in 1..(2 * K + 1) |->
-            LET Y == 2 * K + 1 - row      \* 0 at the bottom; even = cell row, odd = line through value (Y-1)/2
-                X == col - 1
-            IN IF Y % 2 = 0 /\ X % 2 = 0 THEN (IF <<X \div 2, Y \div 2>> \in shade THEN "S" ELSE "E")
-               ELSE IF Y % 2 = 0 THEN "V"
-               ELSE IF X % 2 = 0 THEN "H"
-               ELSE IF patt[(X + 1) \div 2] = (Y - 1) \div 2 THEN "P" ELSE "X"]]
+\* the text rendering with cells drawn s x s characters, as a W x W matrix of symbols (W = (k+1)s + k), top row first:
+\* S shaded cell, E empty cell, V / H grid line pieces, P point, X crossing without a point.  Coordinates X, Y are
+\* 0 at the left / bottom; every (s+1)-th one is a grid line (through position / value X \div (s+1)), the others
+\* belong to the cell <<X \div (s+1), Y \div (s+1)>>.
+AsciiOf(M, s) ==
+    LET k == Len(M.p)  W == (k + 1) * s + k IN
+    [row \in 1..W |-> [col \in 1..W |->
+        LET Y == W - row
+            X == col - 1
+            yLine == Y % (s + 1) = s
+            xLine == X % (s + 1) = s
+        IN IF ~yLine /\ ~xLine THEN (IF <<X \div (s + 1), Y \div (s + 1)>> \in M.R THEN "S" ELSE "E")
+           ELSE IF ~yLine THEN "V"
+           ELSE IF ~xLine THEN "H"
+           ELSE IF M.p[X \div (s + 1) + 1] = Y \div (s + 1) THEN "P" ELSE "X"]]
+Ascii == AsciiOf(M0, 1)
+\* stretching the drawing does not change what it shows: the s = 2 drawing sampled at the first character of every
+\* cell and at the grid lines is the s = 1 drawing
+AsciiScales == \E A1 \in {AsciiOf(M0, 1)}, A2 \in {AsciiOf(M0, 2)} :
+                  \A r \in DOMAIN A1, c \in DOMAIN A1 :
+                     A1[r][c] = A2[3 * ((r - 1) \div 2) + 1 + 2 * ((r - 1) % 2)][3 * ((c - 1) \div 2) + 1 + 2 * ((c - 1) % 2)]
 
 \* ---- emission ------------------------------------------------------------------------------
 EmitState ==
@@ -100,5 +114,5 @@ EmitState ==
       adddec |-> {[c |-> c, p |-> MAddPoint(MAddPoint(M0, c, "none"), <<c[1] + 1, c[2]>>, "none").p,
                            R |-> MAddPoint(MAddPoint(M0, c, "none"), <<c[1] + 1, c[2]>>, "none").R] : c \in Cells \ shade},
       rects |-> {[r |-> r, shaded |-> RectShaded(r), pointfree |-> RectPointFree(r)] : r \in Rects},
-      nonpointless |-> NonPointless, anchored |-> Anchored, rank |-> MRank(M0), ascii |-> Ascii]))
+      nonpointless |-> NonPointless, anchored |-> Anchored, rank |-> MRank(M0), ascii |-> Ascii, ascii2 |-> AsciiOf(M0, 2)]))
 =============================================================================
